@@ -6,6 +6,7 @@
 -/
 import PydapModel.Handler
 import Proofs.Handler
+import Proofs.HandlerWF
 namespace Pydap.C15
 open Pydap Pydap.Handler
 
@@ -59,21 +60,30 @@ theorem C15_errdoc_shape (code : Int) (message : Str) :
     errorHeaders = ⟨500, cs!"text/plain", cs!"OPeNDAP_error"⟩ :=
   ⟨rfl, rfl⟩
 
-/-- **The 200 body can be read to its end**: when the constrained dataset is well formed (every
-    array carries `prod shape` values in an object that has `.flat`), iterating the body of any of
-    the four responses raises nothing. -/
-theorem C15_body_complete (fmt : Int → Str) (k : Kind) (cds : Dataset) (h : cds.WF) :
-    ∃ text, bodyOf fmt k cds = .complete text := by
-  cases k with
-  | ascii =>
-    obtain ⟨t, ht⟩ := asciiData_ok fmt cds h
-    exact ⟨ddsText cds ++ dashes ++ t, by simp [bodyOf, ht]⟩
-  | dds => exact ⟨_, rfl⟩
-  | das => exact ⟨_, rfl⟩
-  | dods => exact ⟨_, rfl⟩
-  | other => exact ⟨_, rfl⟩
+/-- **The 200 body can be read to its end**: for a well-formed source dataset (every array carries
+    `prod shape` values in an object that has `.flat`, every sequence row one value per column),
+    whatever the path and the query string: when the handler answers 200, iterating the body of the
+    response raises nothing.  No hypothesis on the constrained dataset is left: `constrain_wf`
+    (`Proofs/HandlerWF.lean`) carries well-formedness through the whole of `BaseHandler.parse` —
+    `apply_selection`, `fix_shorthand`, the collect pass, "fix sequence data" and the slice pass. -/
+theorem C15_body_complete (fmt : Int → Str) (ds : Dataset) (hds : ds.WF) (path query : Str)
+    (k : Kind) (body : Body) (h : handle fmt ds path query = .ok k body) :
+    ∃ text, body = .complete text := by
+  unfold handle at h
+  split at h
+  · rename_i k' cds hg
+    simp only [Outcome.ok.injEq] at h
+    obtain ⟨t, ht⟩ := bodyOf_complete fmt k' cds (guarded_wf ds cds path query k' hds hg)
+    exact ⟨t, by rw [← h.2, ht]⟩
+  · simp at h
+  · simp at h
 
-/-- the hypothesis on `.flat` is what carries it: a wrapped `BaseType` left in `var.data` (the
+/-- the constrained dataset of every request is well formed when the source is (the lemma the
+    completeness theorem rests on, for every projection list and selection list) -/
+theorem C15_constrain_wf (ds cds : Dataset) (proj : List ProjItem) (sel : List Str) (hds : ds.WF)
+    (h : constrain ds proj sel = .ok cds) : cds.WF := constrain_wf ds cds proj sel hds h
+
+/-- the `.flat` part of well-formedness is what carries it: a wrapped `BaseType` left in `var.data` (the
     pinned `apply_projection`) makes the ASCII body raise while it is iterated -/
 theorem C15_body_wrapped_raises (fmt : Int → Str) :
     bodyOf fmt .ascii ⟨cs!"d", [.base { name := cs!"a", ty := cs!"Int32", shape := [2], dims := [],
